@@ -55,7 +55,7 @@ def toggle_sets(ctx):
     rnd = random.Random(ctx.seed)
     names = sorted(DRIVEN)
     sets = [[]] + [[n] for n in names] + [names] + [sorted(CORE)]
-    n_random = 4 if ctx.tier != "thorough" else 120
+    n_random = 4 if ctx.tier != "thorough" else 60
     for _ in range(n_random):
         k = rnd.randint(2, len(names) - 1)
         sets.append(sorted(rnd.sample(names, k)))
@@ -113,6 +113,24 @@ def compare(ctx, tag, ops_file, sets, only, base_dir, dirs):
             for i, b in zip(fusion_suspects, imp):
                 if engines_of(b) == engines_of(base[i]):
                     confirmed.add(i)
+    # second known mechanism (C02 class `comb-fusion:…`): comb fusion inlines a definition into a width-sensitive
+    # reader with the width of its right-hand side, so the BASELINE of the 2-state engines is wrong and every toggle set
+    # that restrains the fusion repairs it. Established per design: all failing sets contain a fusion toggle, only
+    # 2-state engines change, the baseline deviates from Sim.run and the toggled run does not.
+    fusion2 = {}
+    for i, lst in bad.items():
+        if i in confirmed:
+            continue
+        if all(set(x[0]) & FUSION_TOGGLES for x in lst) and all(k[:2] in ("i2", "j2", "cc") for x in lst for k in x[1]):
+            fusion2[i] = min(lst, key=lambda x: len(x[0]))[0]
+    fusion_confirmed = set()
+    if fusion2 and only != "cc":
+        base_ver = {op: ver for op, imp, mod, ver in judge_dir(ctx, base_dir)}
+        for i, s0 in fusion2.items():
+            d = dirs[sets.index(s0)]
+            tog_ver = {op: ver for op, imp, mod, ver in judge_dir(ctx, d)}
+            if base_ver.get(base_ops[i], "ok") not in ("ok", "skip") and tog_ver.get(base_ops[i]) == "ok":
+                fusion_confirmed.add(i)
     for i, lst in bad.items():
         # attribute to the smallest failing toggle set seen
         lst.sort(key=lambda x: len(x[0]))
@@ -121,12 +139,15 @@ def compare(ctx, tag, ops_file, sets, only, base_dir, dirs):
                 "all_failing_toggle_sets": [spec(x[0]) for x in lst[:20]], "seed": ctx.seed,
                 "replay": f"{HX} engines --replay <file with the design line> --out A ; {HX} engines --replay <same file> "
                           f"--toggles \"{spec(s)}\" --out B ; diff A/impl.txt B/impl.txt"}
-        key = DCE_FUSION_KEY if i in confirmed else None
+        key = DCE_FUSION_KEY if i in confirmed else (FUSION_WIDTH_KEY if i in fusion_confirmed else None)
         ctx.violation(f"{tag}: engines {diff} change their trace under toggles [{spec(s)}] on `{base_ops[i][:200]}`", body,
                       key=key, kind="impl!=oracle")
 
 
 DCE_FUSION_KEY = "toggle:VERYL_DEAD_VAR_DCE=0:comb-fusion-retires-output-port-with-single-reader"
+FUSION_WIDTH_KEY = "toggle:VERYL_COMB_FUSION*:narrow-definition-inlined-into-width-sensitive-reader"
+FUSION_TOGGLES = {"VERYL_COMB_FUSION", "VERYL_COMB_FUSION_CHEAP", "VERYL_COMB_FUSION_CHEAP_KEEP", "VERYL_COMB_FUSION_LIMIT",
+                  "VERYL_COMB_FUSION_LIMIT_DUP"}
 
 
 def verify_witness(ctx):
@@ -148,6 +169,23 @@ def verify_witness(ctx):
             ctx.notes.append(f"known finding `{DCE_FUSION_KEY}`: its witness no longer reproduces - the entry no longer suppresses anything")
             ctx.log("recorded C03 witness no longer reproduces")
     ctx.cov["witnesses_replayed"] = len(ents)
+    # the fusion-width finding: the baseline deviates from Sim.run, VERYL_COMB_FUSION=0 repairs it
+    ents2 = [f for f in ctx.findings if f.get("kind") == "known" and f.get("key") == FUSION_WIDTH_KEY and f.get("witness")]
+    for f in ents2:
+        d = f"{ctx.run_dir}/witness2"
+        os.makedirs(d, exist_ok=True)
+        with open(f"{d}/w.txt", "w") as fh:
+            fh.write(f["witness"] + "\n")
+        jobs = [(f"{d}/a", ["--replay", f"{d}/w.txt", "--only", "i2,j2"]),
+                (f"{d}/b", ["--replay", f"{d}/w.txt", "--only", "i2,j2", "--toggles", "VERYL_COMB_FUSION=0"])]
+        hx_parallel(ctx, jobs)
+        va = [v for _, _, _, v in judge_dir(ctx, f"{d}/a")]
+        vb = [v for _, _, _, v in judge_dir(ctx, f"{d}/b")]
+        if not (va and vb and va[0].startswith("fail") and vb[0] == "ok"):
+            ctx.findings = [x for x in ctx.findings if x is not f]
+            ctx.notes.append(f"known finding `{FUSION_WIDTH_KEY}`: its witness no longer reproduces - the entry no longer suppresses anything")
+            ctx.log("recorded C03 fusion-width witness no longer reproduces")
+    ctx.cov["witnesses_replayed"] += len(ents2)
 
 
 def toggle_runs(ctx, tag, level, n, seq, only, sets):
@@ -203,7 +241,7 @@ def run(ctx):
     ]
     ctx.cov["rule"] = ("the same generated designs + stimuli (C02 generator) replayed in one `hx engines` process per toggle set: "
                        "none, every driven toggle alone, all driven toggles, the ten toggles named by the property, random subsets "
-                       "(thorough: 120 random subsets + all 1023 subsets of the ten named toggles); every engine's trace must equal "
+                       "(thorough: 60 random subsets + all 1023 subsets of the ten named toggles); every engine's trace must equal "
                        "the same engine's baseline trace; distinct = distinct (design, baseline reply)")
     lean_list = lean_driven_list()
     ctx.cov["driven_toggles"] = sorted(DRIVEN)
@@ -223,9 +261,9 @@ def run(ctx):
     toggle_runs(ctx, "comb", 0, 6 if quick else 20, "0", nocc, sets)
     if not quick:
         # all 2^10 subsets of the ten toggles named by the property
-        toggle_runs(ctx, "core-seq", 0, 10, "1", nocc, core_subsets)
-        toggle_runs(ctx, "core-comb", 0, 6, "0", nocc, core_subsets)
-        toggle_runs(ctx, "s3", 3, 30, "mix", nocc, sets[:60])
+        toggle_runs(ctx, "core-seq", 0, 6, "1", nocc, core_subsets)
+        toggle_runs(ctx, "core-comb", 0, 4, "0", nocc, core_subsets)
+        toggle_runs(ctx, "s3", 3, 20, "mix", nocc, sets[:40])
     # the statement-level passes feed the cc backend as well: a few designs, a few sets
     cc_sets = [sets[0], sorted(DRIVEN), sorted(CORE)] + ([] if quick else [[n] for n in CORE])
     toggle_runs(ctx, "cc", 0, 4 if quick else 12, "mix", "cc", cc_sets)
